@@ -509,6 +509,8 @@ impl Sim {
                 // block decided that carries the same transactions but differs in one header field. The node that prepared the
                 // original must not reuse its cached execution for it.
                 if self.profile == "paths" && height >= 2 && self.rng.gen_bool(0.12) {
+                    let original = ctx.clone();
+                    let stop_before = self.stop_after_height;
                     let kind = self.rng.gen_range(0..4);
                     let what = match kind {
                         0 => {
@@ -535,9 +537,20 @@ impl Sim {
                         }
                     };
                     ctx.hash = block_hash(hist, height, round, 555);
-                    self.log.ev(json!({"kind": "twin_of_own_proposal", "hist": hist, "height": height, "round": round, "proposer_node": p, "differs_in": what}));
-                    // make sure the node that prepared the original is among those that process the twin
-                    self.twin_must_process = Some(p);
+                    // a block is only ever decided if validators accept it: the changed header field may invalidate a transaction the
+                    // original proposer had legitimately included (evidence that removes a validator makes a validator removal in the
+                    // block illegal, for instance). Probe the twin on another node as a proposal of its own round; if it is refused,
+                    // that round is abandoned and the original proposal is decided instead.
+                    let probe = (p + 1) % nn;
+                    if self.process_on(probe, &ctx, "abandoned_twin_probe").await {
+                        self.log.ev(json!({"kind": "twin_of_own_proposal", "hist": hist, "height": height, "round": round, "proposer_node": p, "differs_in": what}));
+                        // make sure the node that prepared the original is among those that process the twin
+                        self.twin_must_process = Some(p);
+                    } else {
+                        self.log.ev(json!({"kind": "twin_refused_by_validators", "hist": hist, "height": height, "round": round, "differs_in": what}));
+                        ctx = original;
+                        self.stop_after_height = stop_before;
+                    }
                 }
                 decided = Some(ctx);
             }
